@@ -425,6 +425,7 @@ class WebSocketApp:
                 op_code, frame = self.sock.recv_data_frame(True)
             except (
                 WebSocketConnectionClosedException,
+                ConnectionError,
                 KeyboardInterrupt,
                 SSLEOFError,
             ) as e:
